@@ -78,6 +78,14 @@ func H_C09_Merge() {
 	pa := f.vAddConcreteAlive(vPeerA, 2)
 	pa.Incarnation = vU32()
 	pa.PMin, pa.PMax, pa.PCur = 1, 5, vU8()
+	if vPick(2) == 1 {
+		// the third member may already be under local suspicion when the remote state arrives
+		vAssume(pa.Incarnation < 0xFFFFFFF0)
+		m.suspectNode(&suspect{Incarnation: pa.Incarnation, Node: vPeerA, From: vSelf})
+		m.broadcasts.Reset()
+		vAssert(pa.State == StateSuspect && m.nodeTimers[vPeerA] != nil, "c09.merge.pre-suspected")
+	}
+	timers0 := len(m.nodeTimers)
 	join := vBool()
 	n := 1 + vPick(1+vTier())
 	remote := make([]pushNodeState, 0, n)
@@ -101,7 +109,7 @@ func H_C09_Merge() {
 		vAssert(len(f.ev.log) == 0, "c09.merge.rejected-no-event")
 		vAssert(m.broadcasts.NumQueued() == 0, "c09.merge.rejected-no-gossip")
 		vAssert(len(f.del.merged) == 0, "c09.merge.rejected-no-user-state")
-		vAssert(len(m.nodeTimers) == 0, "c09.merge.rejected-no-timer")
+		vAssert(len(m.nodeTimers) == timers0, "c09.merge.rejected-no-timer")
 		vAssert(m.incarnation.Load() == selfInc, "c09.merge.rejected-no-refute")
 		vAssert(verr != nil || (join && f.merge.veto), "c09.merge.rejected-for-a-reason")
 		vCover("c09.merge.rejected")
